@@ -122,13 +122,13 @@ def check(ctx):
     sa = D.own_method("__setattr__")
     A = FuncView(ctx, sa, exc="calls")
     store = A.need(A.call_nodes("self.__dict__.__setitem__"), "__dict__.__setitem__ in Data.__setattr__")
-    from ..rules import local_condition, formula_equiv
+    from ..rules import group_condition, formula_equiv
     raises = [n for n in A.cfg.nodes if n.kind == "raise" and "AttributeError" in src(n.ast)]
     WANT = "key in self.__dict__ or REO_IdentPub.match(key)"
     # measured from the handler that both arms live in: store under the condition, AttributeError under its negation
     compound = bool(store) and bool(raises) and \
-        formula_equiv(("or", [local_condition(A, n, by_value=False) for n in store]), WANT) and \
-        formula_equiv(("or", [local_condition(A, n, by_value=False) for n in raises]), "not (%s)" % WANT)
+        formula_equiv(group_condition(A, list(store) + list(raises), by_value=False), "True") and \
+        _same_start(A, store, raises, WANT)
     split = False
     ctx.check(compound or split,
               "T1-ident", sa, "Data.__setattr__: store iff key present or REO_IdentPub.match(key), else AttributeError",
@@ -170,6 +170,23 @@ def check(ctx):
     entries = [m for m in S.methods.values()] + [m for m in K.methods.values()] + [m for m in D.methods.values()]
     defect_scope(ctx, "D-scope", entries, max_depth=0, floor=40, label="scope: Share, Deck, Data methods")
     mapping_arguments(ctx)
+
+
+def _same_start(A, store, raises, want):
+    """store under `want`, AttributeError under its negation - both measured from the point the two arms share"""
+    from ..rules import path_condition, formula_equiv, nearest_dominator
+    cfg = A.cfg
+    nodes = list(store) + list(raises)
+    ids = {n.id for n in nodes}
+    cands = [d for d in cfg.nodes if d.id not in ids and all(n.id in cfg.reachable(d.id) and A.dominated([n], [d]) for n in nodes)]
+    best = None
+    for d in cands:
+        if all(o.id == d.id or A.dominated([d], [o]) for o in cands):
+            best = d
+    start = [best.id] if best is not None else [cfg.entry.id]
+    fs = ("or", [path_condition(A, n, start=start, by_value=False) for n in store])
+    fr = ("or", [path_condition(A, n, start=start, by_value=False) for n in raises])
+    return formula_equiv(fs, want) and formula_equiv(fr, "not (%s)" % want)
 
 
 def mapping_arguments(ctx):
